@@ -771,3 +771,86 @@ pub(crate) mod vh_clique_graph {
         super::compute_reduced_clique_graph(separators, snode)
     }
 }
+
+// ---------------------------------------------------------------------------
+// verification hooks (add-only, off unless feature `verif-hooks` is enabled):
+// the clique-graph strategy pass by pass
+#[cfg(feature = "verif-hooks")]
+pub(crate) mod vh_clique_graph_trace {
+    use super::*;
+
+    /// State of the strategy and of the clique sets after `initialise`
+    /// (`cand = None`) or after one pass of the loop of `merge_cliques`
+    #[derive(Clone, Debug)]
+    pub struct CgSnapshot {
+        pub cand: Option<(usize, usize)>,
+        pub do_merge: bool,
+        pub stop: bool,
+        pub m: usize,
+        pub n: usize,
+        pub colptr: Vec<usize>,
+        pub rowval: Vec<usize>,
+        pub nzval: Vec<isize>,
+        pub p: Vec<usize>,
+        /// keys in increasing order, sets in insertion order
+        pub adjacency: Vec<(usize, Vec<usize>)>,
+        pub snode: Vec<Vec<usize>>,
+        pub n_cliques: usize,
+    }
+
+    fn snap(
+        s: &CliqueGraphMergeStrategy,
+        t: &SuperNodeTree,
+        cand: Option<(usize, usize)>,
+        do_merge: bool,
+    ) -> CgSnapshot {
+        let mut adjacency: Vec<(usize, Vec<usize>)> = s
+            .adjacency_table
+            .iter()
+            .map(|(k, v)| (*k, v.iter().copied().collect()))
+            .collect();
+        adjacency.sort_by_key(|kv| kv.0);
+        CgSnapshot {
+            cand,
+            do_merge,
+            stop: s.stop,
+            m: s.edges.m,
+            n: s.edges.n,
+            colptr: s.edges.colptr.clone(),
+            rowval: s.edges.rowval.clone(),
+            nzval: s.edges.nzval.clone(),
+            p: s.p.clone(),
+            adjacency,
+            snode: t.snode.iter().map(|x| x.iter().copied().collect()).collect(),
+            n_cliques: t.n_cliques,
+        }
+    }
+
+    /// `MergeStrategy::merge_cliques` for `CliqueGraphMergeStrategy` (same calls in the
+    /// same order as the default implementation in `merge/mod.rs`), recording the state
+    /// after `initialise` and after every pass
+    pub(crate) fn merge_cliques_trace(t: &mut SuperNodeTree) -> Vec<CgSnapshot> {
+        let mut s = CliqueGraphMergeStrategy::new();
+        let mut trace = vec![];
+        s.initialise(t);
+        trace.push(snap(&s, t, None, false));
+
+        while !s.is_done() {
+            let Some(cand) = s.traverse(t) else {
+                trace.push(snap(&s, t, None, false));
+                break;
+            };
+            let do_merge = s.evaluate(t, cand);
+            if do_merge {
+                s.merge_two_cliques(t, cand);
+            }
+            s.update_strategy(t, cand, do_merge);
+            trace.push(snap(&s, t, Some(cand), do_merge));
+            if t.n_cliques == 1 {
+                break;
+            }
+        }
+        s.post_process_merge(t);
+        trace
+    }
+}
